@@ -95,6 +95,14 @@ fn probe(path: &str) -> i32 {
         }
         Err(e) => println!("RefDL rejects: {e:?}"),
     }
+    if std::env::var("ILV_KEYS").is_ok() {
+        let mut e = inputlayer::IQLEngine::new();
+        load_edb(&mut e, &db);
+        let r1 = e.execute_tuples(&ptxt);
+        let mut keys: Vec<&String> = e.input_tuples().keys().collect();
+        keys.sort();
+        println!("after execute: {:?} -> input relations {keys:?}", r1.map(|v| v.len()));
+    }
     if std::env::var("ILV_IR").is_ok() {
         let mut e = inputlayer::IQLEngine::new();
         load_edb(&mut e, &db);
